@@ -270,13 +270,29 @@ def audit_awesomeversion(seed=0, tier="quick"):
     return {"name": "T-aw: AwesomeVersion '>' is numeric for major.minor[.patch]", "tool": "native evaluation", "bound": "major 0..3 x minor 0..12 x patch none/0..3 against the five supported versions", "cases": cases, "failed": bad}
 
 
+def audit_engine(seed=0, tier="quick"):
+    import logging
+
+    from . import engine_diff
+
+    logging.disable(logging.CRITICAL)
+    try:
+        return engine_diff.run(seed, tier)
+    finally:
+        logging.disable(logging.NOTSET)
+
+
 PER_PROP = {
-    "C01": [audit_text_laws, audit_hex_laws],
+    "C01": [audit_text_laws, audit_hex_laws, audit_engine],
+    "C04": [audit_engine],
+    "C07": [audit_engine],
+    "C08": [audit_engine],
+    "C14": [audit_engine],
     "C02": [audit_text_laws],
     "C03": [audit_text_laws, audit_hex_laws, audit_awesomeversion],
-    "C05": [audit_text_laws],
+    "C05": [audit_text_laws, audit_engine],
     "C09": [audit_hex_laws, audit_crc, audit_ihex],
-    "C10": [audit_hex_laws],
+    "C10": [audit_hex_laws, audit_engine],
     "C11": [audit_roundtrip],
     "C13": [audit_decoders],
     "C17": [audit_text_laws],
